@@ -482,6 +482,20 @@ def q_nested(tier='quick'):
     return sc, Info(schemas={'a.xsd': sch_a, 'b.xsd': sch_b}, nested=True, simple=[], subjects=[])
 
 
+def q_rebound(tier='quick'):
+    """a prefix bound on the schema root to the target namespace is bound AGAIN, to the imported namespace, on one complexType:
+    inside that type the prefix denotes the imported namespace (XML namespace scoping)"""
+    item_a = CT('Item', Seq([El('ia', 'xs:string')]))
+    item_b = CT('Item', Seq([El('ib', 'xs:int')]))
+    sch_b = Schema(NS2, [item_b], prefixes={'b': NS2})
+    plain = CT('Plain', Seq([El('mine', 'p:Item')]))
+    scoped = CT('Scoped', Seq([El('theirs', 'p:Item')]), ns={'p': NS2})
+    order = Selector('order', perms(3) if tier == 'thorough' else [(0, 1, 2), (2, 1, 0), (1, 2, 0)])
+    sch_a = Schema(NS1, [item_a, plain, scoped], prefixes={'p': NS1, 'b': NS2}, imports=[(NS2, 'b.xsd')], order=order)
+    sc = Scenario('Q-rebound', {'a.xsd': sch_a, 'b.xsd': sch_b}, 'a.xsd', [order])
+    return sc, Info(schemas={'a.xsd': sch_a, 'b.xsd': sch_b}, rebound=True, simple=[], subjects=[])
+
+
 def n_shared(tier='quick'):
     """two imported files share ONE target namespace; all its components belong in the single module of that namespace,
     for both import orders"""
